@@ -233,7 +233,29 @@ Definition chk (b : bool) : bool := b.
     else:
       chk.violation('oracle', what, {'probe': pr['F25-scan-broadcast-write-once'], 'generated': f25[:2]})
   chk.notes['stats'] = stat
+  # two further implementation-side families: sub-modules handed over through dataclass fields; In / Out axis markers over two calls
+  import itertools as _it
+  fcases = []
+  for _ in range(40 if thorough else 10):
+    names = rng.sample(['second', 'first', 'mid', 'zeta', 'alpha'], rng.randint(2, 4))
+    fcases.append({'names': names, 'ws': [rng.randint(2, 9) for _ in names], 'order': [rng.choice(names) for _ in range(rng.randint(2, 4))], 'n': rng.randint(1, 3),
+                   'form': rng.choice(['vmap', 'scan'])})
+  icases = [{'marker': m, 'form': f, 'n': rng.randint(1, 4), 'ncalls': 2} for m, f in _it.product(['plain', 'in', 'out'], ['vmap', 'scan'])]
+  xr = common.run_impl_parallel('impl_c06_extra.py', [{'fields': fcases[i::4], 'inout': icases[i::4]} for i in range(4)], workers=4, timeout=1500)
+  for k, r in enumerate(xr):
+    for c, o in zip(fcases[k::4], r['fields']):
+      chk.count({'field_modules': c}, c['names'] != sorted(c['names']))
+      if 'err' in o['impl'] or o['impl'] != o['ref']:
+        chk.violation('oracle', 'nn.%s of a module that receives bound sub-modules through its dataclass fields (declared in the order %s) differs from the %s of the plain '
+                      'module: a sub-module computes with the variables of another' % (c['form'], c['names'], 'per-index call' if c['form'] == 'vmap' else 'unrolled loop'),
+                      {'case': c, 'observed': o})
+    for c, o in zip(icases[k::4], r['inout']):
+      chk.count({'in_out_axes': c}, c['marker'] != 'plain')
+      if 'err' in o['impl'] or o['impl'] != o['ref']:
+        chk.violation('oracle', 'nn.%s with the collection axis given as %s, applied twice with the first call\'s collection passed back in, differs from the loop: In(axis) slices the '
+                      'collection in and keeps the writes inside, Out(axis) slices nothing in and stacks what the body creates' % (c['form'], {'plain': 'a plain axis', 'in': 'In(0)', 'out': 'Out(0)'}[c['marker']]),
+                      {'case': c, 'observed': o})
   chk.cov['rule'] = ('modules with 1-5 variables in the collections ax0 / ax1 / ax2 / axm1 / bc / carry (variable_axes 0, 1, 2 and -1, variable_broadcast, variable_carry) of rank 0-3 with non-square shapes x '
-                     'integer bodies (C08 language) x lengths 1-4 x reverse x unroll 1-3 x split_rngs patterns over two streams; apply on stacked variables and init; nn.scan and nn.vmap. '
+                     'integer bodies (C08 language) x lengths 1-4 x reverse x unroll 1-3 x split_rngs patterns over two streams; apply on stacked variables and init; nn.scan and nn.vmap; bound sub-modules passed through dataclass fields in any declaration order; In(0) / Out(0) axis markers over two calls. '
                      'non-trivial = length > 1 and at least two roles')
   chk.cov['trusted_base'] = ['Coq 8.16.1 kernel + vm_compute', 'harness/c06.py, impl_c06.py, c08.py', 'harness/jaxcompat.py', 'lax.scan, jax.vmap']
